@@ -1,6 +1,6 @@
 SPECIFICATION Spec
 CONSTANTS
-  Alpha = {1,2,3,4,5,6,7,8,9,10,11,14}
+  Alpha = {1,2,3,4,5,7,8,9,11,14}
   MaxLen = 6
   KA = {3}
   KB = {1}
